@@ -530,6 +530,10 @@ class Frame:
             a = args[1][1] if (len(args) > 1 and isinstance(args[1], tuple) and args[1][0] == "tuple") else (args[1:] if len(args) > 1 and args[1] != ("unit",) else [])
             return self.closure_ret(args[0], list(a), site_hint=site)
         if is_std or f.startswith(("anyhow::", "itertools::")):
+            if name == "into_iter" and args and isinstance(args[0], tuple) and args[0] and args[0][0] == "adt" and args[0][1].endswith("ops::range::Range"):
+                # `for i in a..b`: the loop's iterator is stamped with its site, so that two loops over equal ranges (a nested
+                # `for j in 0..n` inside `for i in 0..n`) have different element terms
+                return ("rng", site, args[0])
             if name in TRANSPARENT_NAMES and args:
                 return args[0]
             if name == "size_of" and not args and t.get("ga"):
@@ -940,6 +944,8 @@ def show(t, depth=0, maxdepth=7):
         return b[0] + ", ".join(r(x) for x in t[1]) + b[1]
     if tag == "adt":
         return "%s{%s}" % (t[1].rsplit("::", 1)[-1], ", ".join("%s: %s" % (k, r(v)) for k, v in t[3]))
+    if tag == "rng" and len(t) == 3:
+        return r(t[2])
     if tag == "phi":
         return "φ%s{%s}" % (t[1].rsplit("#", 1)[-1], " | ".join(r(x) for x in t[2]))
     if tag == "rec":
